@@ -324,7 +324,9 @@ Inductive fkind :=
 | KBool                          (* BoolField() *)
 | KList                          (* ListField() without item field *)
 | KDict                          (* DictField() without key/value fields *)
-| KChal (has_default : bool).    (* ChallengeField(), default given or not *)
+| KChal (has_default : bool)     (* ChallengeField(), default given or not *)
+| KRaise (e : errk).             (* a string field whose validation chain (a `validator=` callable or a
+                                    Field subclass's _validate) raises exception `e` on the text "boom" *)
 
 Definition in_range (lo hi : option Z) (z : Z) : bool :=
   match lo with Some l => (l <=? z) | None => true end &&
@@ -390,6 +392,11 @@ Definition kvalidate (k : fkind) (v : pyval) : res pyval :=
       | PStr s => if all_ascii s then Ok (digest_of s) else Unmodelled
       | PDigest s d a => Ok (PDigest s d a)
       | PBytes _ => Unmodelled
+      | _ => Err EValue
+      end
+  | KRaise e =>
+      match v with
+      | PStr s => if str_eqb s (sa "boom") then Err e else Ok (PStr s)
       | _ => Err EValue
       end
   end.
